@@ -276,6 +276,11 @@ class IPCServer(IPCBase):
                 self.sock.settimeout(timeout)
 
     def __enter__(self) -> IPCServer:
+        # The server object outlives its connections. Start each connection with an
+        # empty receive buffer, so that a frame a previous client left half-sent is
+        # not prepended to the data of this client.
+        self.buffer = bytearray()
+        self.message_size = None
         if sys.platform == "win32":
             # NOTE: It is theoretically possible that this will hang forever if the
             # client never connects, though this can be "solved" by killing the server
